@@ -211,8 +211,16 @@ def r2_position_discipline(rep, src):
                          'the shared file object is not (re)positioned to this member\'s cursor right before the read: interleaved use of '
                          'another member makes this call return that member\'s bytes', where=where)
             # (b) cursor update on every path to a normal exit
+            def advances(v):
+                """the new cursor: where the file object now stands, or the old cursor plus the number of bytes obtained"""
+                if norm(v) == 'self.__fp.tell()':
+                    return True
+                if isinstance(v, ast.BinOp) and isinstance(v.op, ast.Add):
+                    a_, b_ = norm(v.left), norm(v.right)
+                    return (a_ == 'self.__cur' and b_.startswith('len(')) or (b_ == 'self.__cur' and a_.startswith('len('))
+                return False
             upd = [x for x in g.stmts() if x.kind == 'stmt' and isinstance(x.ast, (ast.Assign, ast.AugAssign)) and (
-                (isinstance(x.ast, ast.Assign) and norm(x.ast.targets[0]) == 'self.__cur' and norm(x.ast.value) == 'self.__fp.tell()') or
+                (isinstance(x.ast, ast.Assign) and norm(x.ast.targets[0]) == 'self.__cur' and advances(x.ast.value)) or
                 (isinstance(x.ast, ast.AugAssign) and norm(x.ast.target) == 'self.__cur' and isinstance(x.ast.op, ast.Add) and norm(x.ast.value).startswith('len(')))]
             if not g.exists_path(n.id, g.exit.id, avoid=[u.id for u in upd if u.id != n.id]) or any(u.id == n.id for u in upd):
                 rep.ok('C06.R2', f.site, norm(c) + ': cursor updated', 'every path to a return passes the cursor update')
@@ -220,7 +228,19 @@ def r2_position_discipline(rep, src):
                 rep.fail('C06.R2', f.site, norm(c) + ': cursor updated', 'a return is reachable after the read without updating self.__cur: '
                          'the next call returns the same bytes again', where=where)
         # (c) out-of-range early return
-        outr = [t for t in g.nodes if t.kind == 'test' and 'self.__cur >= self.__end' in norm(t.ast).replace('self.__end <= self.__cur', 'self.__cur >= self.__end')]
+        # a test that is true whenever cur >= end (entailed by that assumption, through `or` / `and`)
+        def entailed(test, facts, tr):
+            if isinstance(test, ast.BoolOp):
+                rs = [entailed(v, facts, tr) for v in test.values]
+                return any(rs) if isinstance(test.op, ast.Or) else all(rs)
+            if isinstance(test, ast.Compare) and len(test.ops) == 1:
+                la, ra = tr.aff(test.left), tr.aff(test.comparators[0])
+                cs = cmp_to_constraints(la, test.ops[0], ra) if la is not None and ra is not None else None
+                return bool(cs) and all(facts.entails(c) for c in cs)
+            return False
+        tr0 = Translator()
+        at_end = Facts([tr0.aff(ast.parse('self.__cur - self.__end', mode='eval').body)])
+        outr = [t for t in g.nodes if t.kind == 'test' and entailed(t.ast, at_end, tr0)]
         okr = False
         for t in outr:
             for d, lab in g.succ[t.id]:
